@@ -62,6 +62,19 @@ def done_summary(P, path, memo, stack=()):
     return memo[path]
 
 
+def done_events(P, f, memo, skip=()):
+    """block -> (lo, hi) `done` messages produced there: own constructions plus calls of nrepl helpers that build them."""
+    w = {bi: (1, 1) for bi in done_blocks(f)}
+    for bi, t in f.calls():
+        n = M.callee_name(t) or ""
+        if n.startswith(MOD) and n in P.funcs and n != f.path and not n.endswith("::bstr") and not n.startswith(tuple(skip)):
+            s_ = done_summary(P, n, memo, (f.path,))
+            if s_ != (0, 0):
+                a = w.get(bi, (0, 0))
+                w[bi] = (a[0] + s_[0], a[1] + s_[1])
+    return w
+
+
 def returned_locals(g):
     out = {0}
     for b in g.blocks:
@@ -157,7 +170,7 @@ def run(ctx, res):
                     P.funcs[h].loc())
     # dispatch_to_session: exactly one of {send done-error, enqueue request}
     d = P.require_fn("nrepl::dispatch_to_session")
-    w = {b: (1, 1) for b in done_blocks(d)}
+    w = done_events(P, d, memo)
     enq = []
     for sw in D.call_switches(d, "::is_err"):
         r = d.root_of(sw["call"]["args"][0])
@@ -174,7 +187,7 @@ def run(ctx, res):
                 "dispatch_to_session has a path that neither enqueues the request nor answers, or does both", d.loc())
     # handle_message: per path exactly one of {own done, dispatch_to_session}
     hm = P.require_fn("nrepl::handle_message")
-    w = {b: (1, 1) for b in done_blocks(hm)}
+    w = done_events(P, hm, memo, skip=("nrepl::dispatch_to_session",))
     ndisp = 0
     for bi, t in hm.calls():
         if (M.callee_name(t) or "").startswith("nrepl::dispatch_to_session"):
@@ -190,7 +203,9 @@ def run(ctx, res):
                 "some path through handle_message produces %s done/dispatch events (must be exactly 1): a request would get no `done` or two" % rr, hm.loc())
     # each own-done in handle_message is sent: the done block is followed by conn.send on every path
     snd = [bi for bi, t in hm.calls() if (M.callee_name(t) or "").endswith("Connection::send")]
-    for b in done_blocks(hm):
+    for b in sorted(done_events(P, hm, memo, skip=("nrepl::dispatch_to_session",))):
+        if b in snd:
+            continue
         r = D.reach_from(hm, [b], avoid_blocks=snd)
         if any(x in r for x in returns(hm)):
             res.bad("DONE-ONCE", "nrepl::handle_message # done-not-sent", "a `done` message is built but a path returns without conn.send",
@@ -283,6 +298,28 @@ def run(ctx, res):
             uses_len = any((M.callee_name(tt) or "").endswith("::len") for _, tt in gen.calls())
             okid = bool(incs) and mut_counter and not uses_len
             why = "increments=%d, takes &mut counter=%s, derives from len()=%s" % (len(incs), mut_counter, uses_len)
+        if gen is None:
+            # inline form: `self.next_id += 1; let id = format!(.., self.next_id)` in new_session itself
+            kk = k
+            for _ in range(3):
+                if kk[0] == "call" and (M.callee_name(kk[2]) or "").endswith("must_use") and kk[2]["args"]:
+                    kk = ns.root_of(kk[2]["args"][0], through_named=True)
+            if kk[0] == "call" and (M.callee_name(kk[2]) or "").endswith("fmt::format"):
+                fb = kk[1]
+                stores = []
+                for bi2, b2 in enumerate(ns.blocks):
+                    for st in b2["stmts"]:
+                        if st["s"] == "assign" and st["place"]["p"] and ns.field_path(st["place"]) and st["rv"]["k"] == "use":
+                            q = M.op_place(st["rv"]["a"])
+                            d0 = ns.single_def(q["l"]) if q is not None else None
+                            if d0 and d0[1] != "term" and d0[2]["rv"]["k"] == "binop" and d0[2]["rv"]["op"] in ("AddWithOverflow", "Add") \
+                                    and (M.op_const(d0[2]["rv"]["b"]) or {}).get("v") == 1:
+                                src_ = M.op_place(d0[2]["rv"]["a"])
+                                if src_ is not None and ns.field_path(src_) == ns.field_path(st["place"]) and ns.dominates(bi2, fb):
+                                    stores.append(ns.field_path(st["place"])[-1])
+                uses_len = any((M.callee_name(tt) or "").endswith("::len") for b3, tt in ns.calls() if ns.dominates(b3, fb))
+                okid = bool(stores) and not uses_len
+                why = "inline: counter field incremented before formatting the id=%s, derives from len()=%s" % (stores, uses_len)
         if okid:
             res.ok("ISOLATION", "new_session: the session id comes from a monotonically incremented counter (FRESH-ID)")
         else:
